@@ -797,6 +797,7 @@ func TestVerifC11_hist_decode(t *testing.T) {
 	var retMu sync.Mutex
 	retaining := map[string]bool{}
 	tgTime := map[string]float64{}
+	samples := make([]map[string]interface{}, len(targets))
 	freshOut := make([][]c11Outcome, len(targets))
 	usable := make([][]bool, len(targets))
 	good := make([]bool, len(targets))
@@ -944,7 +945,9 @@ func TestVerifC11_hist_decode(t *testing.T) {
 					continue
 				}
 				if len(h) == 2 && ti%7 == 0 && h[0] == 0 && i == 1 {
-					r.Sample(map[string]interface{}{"target": tg.name, "history": hn, "outcome": last.String()})
+					retMu.Lock()
+					samples[ti] = map[string]interface{}{"target": tg.name, "history": hn, "outcome": last.String()}
+					retMu.Unlock()
 				}
 				rec(h)
 			}
@@ -952,6 +955,11 @@ func TestVerifC11_hist_decode(t *testing.T) {
 		rec(nil)
 	})
 	col.flush(r)
+	for ti := range targets { // fixed order
+		if samples[ti] != nil {
+			r.Sample(samples[ti])
+		}
+	}
 	if os.Getenv("VERIF_C11_TIMES") != "" {
 		for k, v := range tgTime {
 			if v > 1 {
